@@ -311,7 +311,7 @@ Proof.
   pose proof (emit_first_not_hash _ _ _ _ _ Hv E) as Hh.
   apply andb_true_iff in Hfirst as [Hf _]. apply andb_true_iff in Hf as [Hq Hw].
   apply negb_true_iff in Hq, Hw.
-  cbn [app]. rewrite skip_enter; [|assumption|now apply not_ws_not_sp|assumption].
+  cbn [app]. rewrite skip_enter; [|assumption|assumption|assumption].
   change (c0 :: r ++ tl) with ((c0 :: r) ++ tl). rewrite <- E.
   rewrite in_arg_u by assumption. f_equal. f_equal. apply finish_u. discriminate.
 Qed.
@@ -575,7 +575,7 @@ Proof.
     apply andb_true_iff in Ha as [Ha _]. apply andb_true_iff in Ha as [_ Ha].
     destruct (emit_str a (a_esc ch)) as [|c0 r]; [discriminate|].
     apply andb_true_iff in Ha as [Ha He]. apply andb_true_iff in Ha as [_ Hw].
-    apply negb_true_iff in Hw, He. cbn [andb] in He. apply not_ws_not_sp in Hw.
+    apply negb_true_iff in Hw, He. cbn [andb] in He.
     cbn [app after_equals]. now rewrite Hw, He.
 Qed.
 
